@@ -587,6 +587,9 @@ Qed.
 
 Ltac norm_toks := repeat (progress (rewrite ?toks_app, <- ?app_assoc; cbn [toks ExprFullM.T app])).
 
+Ltac norm_toks_c :=
+  repeat (progress (rewrite ?toks_app, <- ?app_assoc; change (toks comma_sp) with [KComma]; cbn [toks ExprFullM.T app])).
+
 Ltac fuel := unfold ExprFull_base.full in *; lia.
 
 Ltac split_ok h :=
@@ -843,6 +846,118 @@ Proof.
   unfold fin, call_tail. destruct v; cbn [fst snd andb].
   - destruct args as [|a0 args0]; [discriminate|]. cbn [map]. reflexivity.
   - reflexivity.
+Qed.
+
+(* ---- composite literals ---- *)
+Definition kv_pieces (kv : option ex * ex) : option (list pc) :=
+  match fst kv with
+  | None => pp (snd kv)
+  | Some k => match pp k, pp (snd kv) with
+              | Some pk, Some pv => Some (pk ++ [PcT KColon; PcS] ++ pv)
+              | _, _ => None
+              end
+  end.
+
+Definition okelems : list (option ex * ex) -> bool :=
+  fix go (l : list (option ex * ex)) : bool :=
+    match l with
+    | [] => true
+    | (k, v) :: r =>
+      (match k with Some k' => ok false true k' (Some KColon) | None => true end) &&
+      ok false true v (sep_next (is_nil r) KComma KRBrace) && go r
+    end.
+
+Definition needelems (l : list (option ex * ex)) : nat :=
+  fold_right (fun (kv : option ex * ex) acc =>
+                S (match fst kv with Some k => full false k | None => 0 end + full false (snd kv) + acc)) 3%nat l.
+
+Definition normkv (kv : option ex * ex) : option ex * ex := (omap norm (fst kv), norm (snd kv)).
+
+Lemma elems_run : forall kvs ls, Forall2 (fun kv q => kv_pieces kv = Some q) kvs ls ->
+  Forall (fun kv => Qo A_stmt (fst kv) /\ A_stmt (snd kv)) kvs ->
+  forall rest, okelems kvs = true ->
+  forall m, (needelems kvs <= m)%nat ->
+  pelems m (toks (sep_by comma_sp ls) ++ KRBrace :: rest) = ROk (map normkv kvs, KRBrace :: rest).
+Proof.
+  induction 1 as [|kv q kvs ls hq hrest IH]; intros hA rest hok m hm.
+  - cbn [sep_by toks app map needelems fold_right] in *.
+    destruct m as [|k]; [lia|]. rewrite pelems_S, pexpr_none by (try lia; reflexivity). reflexivity.
+  - inversion hA as [|x y [hAk hAv] hAr]. subst x y.
+    destruct kv as [kk v]. cbn [okelems] in hok.
+    apply andb_prop in hok. destruct hok as [hok hokr]. apply andb_prop in hok. destruct hok as [hokk hokv].
+    cbn [needelems fold_right fst snd] in hm. destruct m as [|k]; [lia|].
+    rewrite pelems_S, sep_by_cons. cbn [map]. unfold normkv at 1. cbn [fst snd] in *.
+    unfold kv_pieces in hq. cbn [fst snd] in hq.
+    destruct kk as [k'|].
+    + destruct (pp k') as [pk|] eqn:epk; [|discriminate]. destruct (pp v) as [pv|] eqn:epv; [|discriminate].
+      injection hq as <-. cbn [Qo] in hAk.
+      destruct hrest as [|kv2 q2 kvs' ls' hq2 hrest'].
+      * cbn [is_nil sep_next] in hokv. norm_toks.
+        rewrite (B_elem k' hAk (Some KColon) pk (KColon :: toks pv ++ KRBrace :: rest) k hokk eq_refl epk eq_refl)
+          by (unfold needelems in *; fuel).
+        cbn [rbind].
+        rewrite (B_elem v hAv (Some KRBrace) pv (KRBrace :: rest) k hokv eq_refl epv eq_refl) by (unfold needelems in *; fuel).
+        reflexivity.
+      * cbn [is_nil sep_next] in hokv. norm_toks_c.
+        rewrite (B_elem k' hAk (Some KColon) pk (KColon :: toks pv ++ KComma :: toks (sep_by comma_sp (q2 :: ls')) ++ KRBrace :: rest) k
+                   hokk eq_refl epk eq_refl) by (unfold needelems in *; fuel).
+        cbn [rbind].
+        rewrite (B_elem v hAv (Some KComma) pv (KComma :: toks (sep_by comma_sp (q2 :: ls')) ++ KRBrace :: rest) k hokv eq_refl epv eq_refl)
+          by (unfold needelems in *; fuel).
+        cbn [rbind].
+        rewrite (IH hAr rest hokr k) by (unfold needelems in *; cbn [fold_right] in *; fuel).
+        reflexivity.
+    + destruct (pp v) as [pv|] eqn:epv; [|discriminate]. injection hq as <-.
+      destruct hrest as [|kv2 q2 kvs' ls' hq2 hrest'].
+      * cbn [is_nil sep_next] in hokv.
+        rewrite (B_elem v hAv (Some KRBrace) pv (KRBrace :: rest) k hokv eq_refl epv eq_refl) by (unfold needelems in *; fuel).
+        reflexivity.
+      * cbn [is_nil sep_next] in hokv. norm_toks_c.
+        rewrite (B_elem v hAv (Some KComma) pv (KComma :: toks (sep_by comma_sp (q2 :: ls')) ++ KRBrace :: rest) k hokv eq_refl epv eq_refl)
+          by (unfold needelems in *; fuel).
+        cbn [rbind].
+        rewrite (IH hAr rest hokr k) by (unfold needelems in *; cbn [fold_right] in *; fuel).
+        reflexivity.
+Qed.
+
+Lemma if_split (b : bool) {A} (x y r : A) : (if b then x else y) = r -> (b = true /\ x = r) \/ (b = false /\ y = r).
+Proof. destruct b; auto. Qed.
+
+Lemma A_complit p t kvs : Qo A_stmt t -> Forall (fun kv => Qo A_stmt (fst kv) /\ A_stmt (snd kv)) kvs -> A_stmt (XCompLit p t kvs).
+Proof.
+  intros IHt IHkvs ty el nxt hok ps hpp g0 b0 c g P rest hnxt hh.
+  cbn [ExprFullOk.ok] in hok. destruct ty; [discriminate|]. cbn [negb andb] in hok.
+  apply andb_prop in hok. destruct hok as [hok hkvs].
+  apply andb_prop in hok. destruct hok as [hexp ht].
+  cbn [ExprFullM.pp] in hpp.
+  destruct (opt_pieces (omap pp t)) as [pt|] eqn:ept; [|discriminate].
+  (* the elements *)
+  assert (hel : exists ls, Forall2 (fun kv q => kv_pieces kv = Some q) kvs ls /\
+                  ps = pt ++ ExprFullM.T KLBrace ++ sep_by comma_sp ls ++ ExprFullM.T KRBrace).
+  { apply if_split in hpp. destruct hpp as [[hx hpp]|[hx hpp]].
+    - destruct (join_opt comma_sp _) as [pk|] eqn:epk; [|discriminate]. injection hpp as <-.
+      destruct (join_opt_F2 comma_sp kv_pieces kvs pk epk) as [ls [h1 h2]]. exists ls. subst pk. auto.
+    - rewrite hx in hexp. cbn [orb] in hexp. destruct kvs; [|discriminate]. injection hpp as <-. exists []. split; [constructor|reflexivity]. }
+  destruct hel as [ls [hF2 ->]].
+  assert (hrun : forall k, (needelems kvs <= k)%nat ->
+            pelems k (toks (sep_by comma_sp ls) ++ KRBrace :: rest) = ROk (map normkv kvs, KRBrace :: rest)).
+  { intros k hk. apply elems_run; assumption. }
+  destruct t as [t'|]; cbn [omap opt_pieces Qo] in *.
+  - apply andb_prop in ht. destruct ht as [ht hx].
+    apply andb_prop in ht. destruct ht as [hnop hnd]. apply negb_true_iff in hnop.
+    destruct (post_A t' pt IHt ept hnop el KLBrace hx g0 c g P (toks (sep_by comma_sp ls) ++ KRBrace :: rest)) as [c' h].
+    exists false. intros n hn.
+    cbn [ExprFull_base.cost ExprFull_base.need ExprFull_base.spine ExprFull_base.lastop ExprFull_base.norm is_operator negb app omap] in *.
+    rewrite andb_true_r, FL_false. norm_toks.
+    replace (S (cost false t') + n)%nat with (cost false t' + S n)%nat by lia.
+    rewrite h by lia. rewrite pt_lbrace by (rewrite parens_norm; reflexivity).
+    rewrite hrun by (unfold needelems; unfold ExprFull_base.full in *; lia). reflexivity.
+  - injection ept as <-. subst el.
+    exists false. intros n hn.
+    cbn [ExprFull_base.cost ExprFull_base.need ExprFull_base.spine ExprFull_base.lastop ExprFull_base.norm is_operator negb app omap] in *.
+    rewrite andb_true_r, FL_false. norm_toks.
+    change (2 + n)%nat with (S (S n)). rewrite po_elided, pt_lbrace by reflexivity.
+    rewrite hrun by (unfold needelems; unfold ExprFull_base.full in *; lia). reflexivity.
 Qed.
 
 End Main.
